@@ -7,7 +7,7 @@
 // re-randomises the iteration order of a map for every `range`, and the bucket layout per map),
 // and the observation is the SET of distinct outcomes seen.
 //
-// Line:  case id tree req mode err | outcomes
+// Line:  case id tree req mode err | outcomes        (mode may carry `+unesc` and `+ov<hexpath>`)
 //
 // tree : `<rootOwn>` then tokens joined by ','
 //
@@ -30,6 +30,13 @@
 //	+custom   the root app uses a custom context (NewCtxFunc), i.e. customRequestHandler
 //	+cs       root Config.CaseSensitive   +strict  root Config.StrictRouting
 //	+subcs    every mounted app is created with CaseSensitive (the root's setting governs routing)
+//	+log      the root app uses fiber's middleware/logger (Stream io.Discard) right behind the outermost
+//	          middleware: the logger calls c.App().ErrorHandler itself for an error coming back from
+//	          c.Next() and returns nil; +logskip: the same with a Skip predicate (true for paths of even length)
+//	+sublog   every mounted app uses the logger as its first middleware; +sublogskip: with the Skip predicate
+//	+unesc    root Config.UnescapePath (ctx.Path() is the percent-decoded path)
+//	+ov<hex>  the handler that raises the error (root middleware in mode mw, the mounted app's middleware in
+//	          mode sub<k>, the `/e` endpoint in mode chain) first overrides the path: c.Path(<path>)
 //
 // err  : `F:<code>:<hexmsg>` fiber.NewError | `P:<hexmsg>` errors.New | `W:<code>:<hexmsg>` wrapped *fiber.Error
 //
@@ -39,12 +46,16 @@
 //
 // outcomes: distinct evaluations joined by '|', each
 //
-//	chain=<E:code:hexmsg | P:hexmsg | none>;calls=<id>x<n>.…|-;status=<n>;body=<hex>          (chain modes)
+//	chain=<E:code:hexmsg | P:hexmsg | none>;fpath=<hex>;calls=<id>x<n>.…|-;status=<n>;body=<hex>   (chain modes)
+//	with loggers in the chain additionally `;hops=<who>~<err>~<hexpath>/…` (before `calls`), innermost first:
+//	the error value (and c.Path()) that came back to the logger <who> (`r` = the root's, <k> = the k-th
+//	mounted app's), recorded by the middleware right behind that logger
 //	srv=<bits>:<hexmsg>;path=<hexpath>;calls=…;status=<n>;body=<hex>   |  srv=none;calls=…      (srv / net modes)
 //
 // `chain` is the error value as the outermost middleware saw it come back from c.Next() (or the one
 // it raised): `E` if errors.As finds a *fiber.Error (its Code), `P` otherwise, with err.Error().
-// It is the input of the error funnel; routing itself (C01) is not modelled by C08.
+// It is the input of the error funnel; routing itself (C01) is not modelled by C08. `fpath` is
+// c.Path() as the outermost middleware reads it when the error comes back: the path the funnel judges.
 // `srv` is what fasthttp handed to the server's ErrorHandler, recorded by a wrapper put around
 // `app.Server().ErrorHandler` (bits = the five tests of serverErrorHandler's switch, Error() text)
 // and `path` the path of the request as the broken request's context carries it.
@@ -63,6 +74,7 @@ import (
 
 	"github.com/gofiber/fiber/v3"
 	"github.com/gofiber/fiber/v3/log"
+	"github.com/gofiber/fiber/v3/middleware/logger"
 	"github.com/valyala/fasthttp"
 	"github.com/valyala/fasthttp/fasthttputil"
 
@@ -142,7 +154,9 @@ func (e errSpec) make() error {
 
 // flags of a case (suffixes of the mode field)
 type flags struct {
-	custom, cs, strict, subcs bool
+	custom, cs, strict, subcs, unesc bool
+	log, logskip, sublog, sublogskip bool
+	ov                               string // "" = no override
 }
 
 // what is evaluated: base mode + flags
@@ -168,6 +182,24 @@ func (m mode) String() string {
 	}
 	if m.subcs {
 		s += "+subcs"
+	}
+	if m.log {
+		s += "+log"
+	}
+	if m.logskip {
+		s += "+logskip"
+	}
+	if m.sublog {
+		s += "+sublog"
+	}
+	if m.sublogskip {
+		s += "+sublogskip"
+	}
+	if m.unesc {
+		s += "+unesc"
+	}
+	if m.ov != "" {
+		s += "+ov" + gen.Hex(m.ov)
 	}
 	return s
 }
@@ -200,8 +232,24 @@ func decMode(s string) mode {
 			m.strict = true
 		case "subcs":
 			m.subcs = true
+		case "unesc":
+			m.unesc = true
+		case "log":
+			m.log = true
+		case "logskip":
+			m.logskip = true
+		case "sublog":
+			m.sublog = true
+		case "sublogskip":
+			m.sublogskip = true
 		default:
-			panic("bad flag")
+			if !strings.HasPrefix(x, "ov") || len(x) < 4 {
+				panic("bad flag")
+			}
+			m.ov = gen.UnHex(x[2:])
+			if m.ov == "" || m.ov[0] != '/' {
+				panic("bad override")
+			}
 		}
 	}
 	if s != m.String() {
@@ -354,13 +402,45 @@ type customCtx struct {
 type run struct {
 	calls   map[int]int
 	chain   string
+	fpath   string // c.Path() when the error came back to the outermost middleware
+	hops    []string
 	srv     string // what the server's ErrorHandler was handed, "" = it was not called
 	srvPath string
 	md      mode
 	e       errSpec
 }
 
-func (r *run) reset() { r.calls = map[int]int{}; r.chain = "none"; r.srv = ""; r.srvPath = "" }
+func (r *run) reset() {
+	r.calls = map[int]int{}
+	r.chain = "none"
+	r.fpath = ""
+	r.hops = r.hops[:0]
+	r.srv = ""
+	r.srvPath = ""
+}
+
+// newLogger: fiber's logger middleware, silent. The format has no ${time} (the default one starts a
+// goroutine per instance that never ends).
+func newLogger(skip bool) fiber.Handler {
+	cfg := logger.Config{Stream: io.Discard, Format: "${status} ${method} ${path} ${error}\n"}
+	if skip {
+		cfg.Skip = func(c fiber.Ctx) bool { return len(c.Path())%2 == 0 }
+	}
+	return logger.New(cfg)
+}
+
+// hop: what came back to the logger `who`
+func (r *run) hop(who string, c fiber.Ctx, err error) {
+	r.hops = append(r.hops, who+"~"+describe(err)+"~"+gen.Hex(c.Path()))
+}
+
+// raise: the handler that fails first overrides the path, if the case says so
+func (r *run) raise(c fiber.Ctx) error {
+	if r.md.ov != "" {
+		c.Path(r.md.ov)
+	}
+	return r.e.make()
+}
 
 func cfgFor(o own, r *run) fiber.Config {
 	if !o.set {
@@ -376,7 +456,7 @@ func cfgFor(o own, r *run) fiber.Config {
 }
 
 func addRoutes(a *fiber.App, r *run) {
-	a.Get("/e", func(fiber.Ctx) error { return r.e.make() })
+	a.Get("/e", func(c fiber.Ctx) error { return r.raise(c) })
 	a.Get("/n", func(c fiber.Ctx) error { return c.SendString("ok") })
 	a.Post("/p", func(c fiber.Ctx) error { return c.SendString("ok") })
 }
@@ -388,12 +468,21 @@ func mountNodes(parent *fiber.App, ns []*node, r *run, idx *int) {
 		sub := fiber.New(cfg)
 		me := *idx
 		*idx++
+		if r.md.sublog || r.md.sublogskip {
+			sub.Use(newLogger(r.md.sublogskip))
+		}
 		// the mounted app's own middleware: one more position of the chain an error can come from
 		sub.Use(func(c fiber.Ctx) error {
+			var err error
 			if r.md.base == "sub" && r.md.k == me {
-				return r.e.make()
+				err = r.raise(c)
+			} else {
+				err = c.Next()
 			}
-			return c.Next()
+			if r.md.sublog || r.md.sublogskip {
+				r.hop(strconv.Itoa(me), c, err)
+			}
+			return err
 		})
 		addRoutes(sub, r)
 		var router fiber.Router = parent
@@ -439,6 +528,7 @@ func buildApp(rootOwn own, ns []*node, r *run) *fiber.App {
 	cfg := cfgFor(rootOwn, r)
 	cfg.CaseSensitive = r.md.cs
 	cfg.StrictRouting = r.md.strict
+	cfg.UnescapePath = r.md.unesc
 	if r.md.base == "net" {
 		cfg.ReadBufferSize = 512
 		cfg.BodyLimit = 8
@@ -452,14 +542,24 @@ func buildApp(rootOwn own, ns []*node, r *run) *fiber.App {
 	}
 	root.Use(func(c fiber.Ctx) error {
 		if r.md.base == "mw" {
-			err := r.e.make()
+			err := r.raise(c)
 			r.chain = describe(err)
+			r.fpath = c.Path()
 			return err
 		}
 		err := c.Next()
 		r.chain = describe(err)
+		r.fpath = c.Path()
 		return err
 	})
+	if r.md.log || r.md.logskip {
+		root.Use(newLogger(r.md.logskip))
+		root.Use(func(c fiber.Ctx) error {
+			err := c.Next()
+			r.hop("r", c, err)
+			return err
+		})
+	}
 	addRoutes(root, r)
 	idx := 0
 	mountNodes(root, ns, r, &idx)
@@ -516,10 +616,14 @@ func evalOnce(root *fiber.App, r *run, m int, path string) (out string) {
 		return srvOutcome(r, fctx.Response.StatusCode(), fctx.Response.Body())
 	}
 	root.Handler()(&fctx)
-	if r.chain == "none" {
-		return "chain=none;calls=" + callsOf(r)
+	hops := ""
+	if len(r.hops) > 0 {
+		hops = ";hops=" + strings.Join(r.hops, "/")
 	}
-	return "chain=" + r.chain + ";calls=" + callsOf(r) + ";status=" + strconv.Itoa(fctx.Response.StatusCode()) + ";body=" + gen.Hex(string(fctx.Response.Body()))
+	if r.chain == "none" && !strings.Contains(hops, "~E:") && !strings.Contains(hops, "~P:") {
+		return "chain=none" + hops + ";calls=" + callsOf(r)
+	}
+	return "chain=" + r.chain + ";fpath=" + gen.Hex(r.fpath) + hops + ";calls=" + callsOf(r) + ";status=" + strconv.Itoa(fctx.Response.StatusCode()) + ";body=" + gen.Hex(string(fctx.Response.Body()))
 }
 
 func rawRequest(k int, path string) string {
@@ -617,7 +721,15 @@ func emit(w *gen.Writer, id string, rootOwn own, ns []*node, m int, path string,
 var prefixes = []string{"/api", "/api", "/api-v2", "/api/v2", "/ap", "/a", "/", "/", "/v1", "/api/", "/admin", "/adm",
 	"api", "/v1/api", "/a/b", "/apiv2", "", "/x",
 	"/API", "/Api-v2", "/Adm", "Api", "/aPi/V2", "v1", "a", "a", "A"}
-var paramPrefixes = []string{"/:tenant", "/:t", "/:t/api", "/api/:id", ":x", "/:a/:b", "/:T/Adm"}
+var paramPrefixes = []string{"/:tenant", "/:t", "/:t/api", "/api/:id", ":x", "/:a/:b", "/:T/Adm", "/:u", "/:a/x", "/x/:b", "/api/:v"}
+
+// prefixes from the rest of fiber's route syntax: wildcards, optional, constrained and mid-segment
+// parameters, escaped characters
+var syntaxPrefixes = []string{"/*", "/files/*", "/f/+", "*", "/api/*", "/*/in",
+	"/api/:v?", "/:lang?", "/v1/:x?/y",
+	"/t/:id<int>", "/:n<minLen(2)>", "/u/:name<alpha>", "/:id<int>", "/r/:k<range(1,9)>", "/:w<maxLen(3)>/api", "/b/:ok<bool>",
+	"/v:ver", "/f-:n", "/:a-:b", "/img.:ext", "/api/v:n",
+	"/a\\:b", "/v\\*", "/x\\+y/z", "/a\\-b", "/d\\.e/f"}
 var groupPrefixes = []string{"/g", "/api", "/", "/v1/", "g", "/G", "", "/api/v2"}
 var paramValues = []string{"acme", "api", "x1", "Admin", "v2"}
 
@@ -666,10 +778,27 @@ func normKey(k string, cs bool) string {
 	return k
 }
 
+// a key that escapes characters but declares no parameter
+func escapeOnly(k string) bool {
+	if !strings.Contains(k, "\\") {
+		return false
+	}
+	for i := 0; i < len(k); i++ {
+		switch k[i] {
+		case '\\':
+			i++
+		case ':', '*', '+':
+			return false
+		}
+	}
+	return true
+}
+
 type genCtx struct {
 	r      *gen.Rand
 	nextID int
-	params bool // this tree may have parameterised prefixes (known finding K1 lives there)
+	params bool // this tree may have parameterised prefixes
+	syntax bool // … and prefixes from the rest of the route syntax
 }
 
 func (g *genCtx) own(p int) own {
@@ -693,6 +822,9 @@ func (g *genCtx) nodes(depth int, budget *int) []*node {
 		if g.params && r.Chance(1, 4) {
 			nd.prefix = gen.Pick(r, paramPrefixes)
 		}
+		if g.syntax && r.Chance(1, 3) {
+			nd.prefix = gen.Pick(r, syntaxPrefixes)
+		}
 		if r.Chance(1, 5) {
 			nd.gps = []string{gen.Pick(r, groupPrefixes)}
 			if r.Chance(1, 3) {
@@ -710,13 +842,111 @@ func (g *genCtx) nodes(depth int, budget *int) []*node {
 	return out
 }
 
+// a value for a parameter segment written `spec` (name, optional constraint, optional `?`): mostly one
+// that satisfies the constraint, sometimes one that does not
+func paramValue(r *gen.Rand, spec string) string {
+	good := !r.Chance(1, 4)
+	switch {
+	case strings.Contains(spec, "<int>"):
+		if good {
+			return gen.Pick(r, []string{"42", "7", "-3"})
+		}
+		return gen.Pick(r, []string{"ab", "4x"})
+	case strings.Contains(spec, "<minLen(2)>"):
+		if good {
+			return gen.Pick(r, []string{"ab", "acme"})
+		}
+		return "a"
+	case strings.Contains(spec, "<maxLen(3)>"):
+		if good {
+			return gen.Pick(r, []string{"ab", "x1", "api"})
+		}
+		return "acme"
+	case strings.Contains(spec, "<alpha>"):
+		if good {
+			return gen.Pick(r, []string{"bob", "Admin"})
+		}
+		return "b0b"
+	case strings.Contains(spec, "<range(1,9)>"):
+		if good {
+			return gen.Pick(r, []string{"1", "5", "9"})
+		}
+		return gen.Pick(r, []string{"0", "10", "x"})
+	case strings.Contains(spec, "<bool>"):
+		if good {
+			return gen.Pick(r, []string{"true", "0", "F"})
+		}
+		return "yes"
+	}
+	return gen.Pick(r, paramValues)
+}
+
+// one segment of a mount point → one (or, for wildcards, several or no) segment(s) of a request path
+func instantiateSeg(r *gen.Rand, s string) (string, bool) {
+	if s == "" {
+		return s, true
+	}
+	plain := strings.IndexAny(s, ":*+\\?<") == -1
+	if plain {
+		return s, true
+	}
+	if len(s) > 1 && s[0] == ':' && strings.IndexAny(s[1:], ":*+\\?<-.") == -1 && r.Chance(1, 6) {
+		return s, true // the pattern spelled out
+	}
+	var out strings.Builder
+	for i := 0; i < len(s); {
+		switch c := s[i]; {
+		case c == '\\' && i+1 < len(s):
+			out.WriteByte(s[i+1])
+			i += 2
+		case c == '*':
+			out.WriteString(gen.Pick(r, []string{"", "a", "a/b", "x1/in"}))
+			i++
+		case c == '+':
+			out.WriteString(gen.Pick(r, []string{"a", "a/b", ""}))
+			i++
+		case c == ':':
+			j := i + 1
+			depth := 0
+			for j < len(s) {
+				if s[j] == '<' {
+					depth++
+				} else if s[j] == '>' {
+					depth--
+				} else if depth == 0 && strings.IndexByte(":-.?\\*+", s[j]) != -1 {
+					break
+				}
+				j++
+			}
+			spec := s[i:j]
+			optional := j < len(s) && s[j] == '?'
+			if optional {
+				j++
+			}
+			if optional && r.Chance(1, 3) {
+				if out.Len() == 0 && j == len(s) {
+					return "", false // the whole segment is left out
+				}
+			} else {
+				out.WriteString(paramValue(r, spec))
+			}
+			i = j
+		default:
+			out.WriteByte(c)
+			i++
+		}
+	}
+	return out.String(), true
+}
+
 // a request path under (or next to) the mount point `key`: parameter segments get a value (or are
-// spelled out), letters may change case
+// spelled out), wildcards any number of segments, escaped characters stand for themselves, letters
+// may change case
 func instantiate(r *gen.Rand, key string) string {
-	segs := strings.Split(key, "/")
-	for i, s := range segs {
-		if len(s) > 1 && s[0] == ':' && !r.Chance(1, 6) {
-			segs[i] = gen.Pick(r, paramValues)
+	var segs []string
+	for _, s := range strings.Split(key, "/") {
+		if v, keep := instantiateSeg(r, s); keep {
+			segs = append(segs, v)
 		}
 	}
 	p := strings.Join(segs, "/")
@@ -735,6 +965,27 @@ func instantiate(r *gen.Rand, key string) string {
 		p = string(bs)
 	}
 	return p
+}
+
+// percent-encode some bytes of a path (letters, a slash now and then): what UnescapePath undoes
+func escapeSome(r *gen.Rand, p string) string {
+	var out strings.Builder
+	for i := 0; i < len(p); i++ {
+		c := p[i]
+		isLetter := (c >= 'a' && c <= 'z') || (c >= 'A' && c <= 'Z')
+		if i > 0 && ((isLetter && r.Chance(1, 4)) || (c == '/' && r.Chance(1, 8)) || (c == ':' && r.Chance(1, 2))) {
+			hex := "0123456789ABCDEF"
+			if r.Bool() {
+				hex = "0123456789abcdef"
+			}
+			out.WriteByte('%')
+			out.WriteByte(hex[c>>4])
+			out.WriteByte(hex[c&15])
+		} else {
+			out.WriteByte(c)
+		}
+	}
+	return out.String()
 }
 
 func main() {
@@ -780,11 +1031,21 @@ func main() {
 	for i := 0; i < o.N; i++ {
 		r := root.Fork(uint64(i))
 		g := &genCtx{r: r, params: r.Chance(1, 5)}
+		g.syntax = r.Chance(1, 4)
 		md := mode{base: "chain"}
 		md.cs = r.Chance(1, 4)
 		md.strict = r.Chance(1, 5)
 		md.custom = r.Chance(1, 4)
 		md.subcs = r.Chance(1, 8)
+		md.unesc = r.Chance(1, 8)
+		if r.Chance(1, 6) {
+			md.log, md.logskip = !r.Bool(), false
+			md.logskip = !md.log
+		}
+		if r.Chance(1, 8) {
+			md.sublog = r.Bool()
+			md.sublogskip = !md.sublog
+		}
 		var ns []*node
 		var ks []string
 		for try := 0; ; try++ {
@@ -795,8 +1056,16 @@ func main() {
 			keys("", ns, &ks)
 			dup := false
 			seen := map[string]bool{}
+			keepCaseVariants := !r.Chance(1, 4)
 			for _, k := range ks {
-				nk := normKey(k, md.cs)
+				// outside the modelled domain: an escape-only key with a trailing slash
+				// (an app mounted at "/" inside an app under such a prefix)
+				if escapeOnly(k) && strings.HasSuffix(k, "/") {
+					dup = true
+				}
+				// "api" next to "/api" is one and the same route; keys that differ in letter case only
+				// are kept in 3 of 4 trees (the selection is deterministic for them too)
+				nk := normKey(k, md.cs || keepCaseVariants)
 				if seen[nk] {
 					dup = true
 				}
@@ -850,6 +1119,23 @@ func main() {
 		}
 		e := errSpec{kind: gen.Pick(r, []byte{'F', 'F', 'P', 'W'}), code: gen.Pick(r, []int{400, 401, 404, 418, 503, 500}),
 			msg: gen.Pick(r, []string{"boom", "nope", "bad thing"})}
+		if md.unesc && !r.Chance(1, 4) {
+			path = escapeSome(r, path)
+		}
+		// the failing handler may override the path first: to another mount point, or a look-alike
+		if r.Chance(1, 10) {
+			ov := "/"
+			if len(ks) > 0 && !r.Chance(1, 6) {
+				ov = strings.TrimRight(instantiate(r, gen.Pick(r, ks)), "/") + gen.Pick(r, []string{"/e", "/zzz", "", "x/e", "/"})
+			}
+			if ov == "" || ov[0] != '/' {
+				ov = "/" + ov
+			}
+			for strings.HasPrefix(ov, "//") {
+				ov = ov[1:]
+			}
+			md.ov = ov
+		}
 		// where the error comes from
 		switch x := r.Intn(24); {
 		case x < 4:
@@ -873,7 +1159,11 @@ func main() {
 			if r.Chance(1, 3) {
 				path = "/"
 			}
+			md.ov = ""
+			md.log, md.logskip, md.sublog, md.sublogskip = false, false, false, false
 		case x == 11:
+			md.ov = ""
+			md.log, md.logskip, md.sublog, md.sublogskip = false, false, false, false
 			md.base, md.k = "net", r.Intn(6)
 		}
 		emit(w, fmt.Sprintf("s%d.%d", o.Seed, i), rootOwn, ns, gen.Pick(r, []int{0, 0, 0, 0, 2}), path, md, e)
